@@ -59,3 +59,66 @@ Section StakeSource.
     - reflexivity.
   Qed.
 End StakeSource.
+
+(* WithdrawQsr (common.go): the deposit found under the sender (absent = 0, as GetQsrDeposit answers), paid out whole to
+   the sender and the entry deleted; nothing to withdraw = refusal. DepositQsr: the model adds the received amount. *)
+Section QsrSource.
+  Variable num : bytes -> Z.
+
+  Theorem withdraw_qsr_is_source (self : bytes) (a : cacct cstore) (s : send) :
+    let cur := match tget (q_dep (a_store a)) (s_from s) with Some v => v | None => 0 end in
+    match withdraw_qsr_validate s with
+    | VErr c =>
+        withdraw_qsr_receive self a s = MErr c /\
+        (c <> 0 -> forall g q d own, WithdrawQsr_receive c g q d own = Ok (nil, c, None))
+    | VPanic => withdraw_qsr_receive self a s = MPanic
+    | VOk _ =>
+        let src := WithdrawQsr_receive 0 0 cur 0 (num (s_from s)) in
+        if cur =? 0 then
+          withdraw_qsr_receive self a s = MErr E_nothing_to_withdraw /\
+          src = Ok (nil, Err_constants_ErrNothingToWithdraw, None)
+        else
+          exists a',
+            withdraw_qsr_receive self a s = MOk a' [{| d_to := s_from s; d_amount := cur; d_zts := ZtsQsr; d_data := [] |}] /\
+            src = Ok ([(num (s_from s), cur, QsrTokenStandard)], 0, Some 1) /\
+            tget (q_dep (a_store a')) (s_from s) = None
+    end.
+  Proof.
+    cbv zeta. unfold withdraw_qsr_receive.
+    destruct (withdraw_qsr_validate s) as [u|c|].
+    - cbv zeta.
+      set (cur := match tget (q_dep (a_store a)) (s_from s) with Some v => v | None => 0 end).
+      unfold WithdrawQsr_receive. cbv zeta. change (0 =? 0) with true. cbn [negb guard].
+      destruct (Z.eqb_spec cur 0) as [H0|H0].
+      + rewrite H0. split; reflexivity.
+      + assert ((Z.sgn cur =? 0) = false) as -> by lia.
+        eexists. split; [reflexivity|]. split; [reflexivity|].
+        cbn [a_store with_store q_dep]. rewrite tget_tdel, bytes_eqb_refl. reflexivity.
+    - split; [reflexivity|]. intros Hc g q d own. unfold WithdrawQsr_receive. cbv zeta.
+      assert ((c =? 0) = false) as -> by lia. reflexivity.
+    - reflexivity.
+  Qed.
+
+  Theorem deposit_qsr_is_source (a : cacct cstore) (s : send) :
+    let cur := match tget (q_dep (a_store a)) (s_from s) with Some v => v | None => 0 end in
+    match deposit_qsr_validate s with
+    | VErr c =>
+        deposit_qsr_receive a s = MErr c /\
+        (c <> 0 -> forall q g amt sv, DepositQsr_receive q c g amt sv = Ok (nil, c, q, None))
+    | VPanic => deposit_qsr_receive a s = MPanic
+    | VOk _ =>
+        exists a',
+          deposit_qsr_receive a s = MOk a' [] /\
+          DepositQsr_receive cur 0 0 (s_amount s) 0 = Ok (nil, 0, cur + s_amount s, Some 1) /\
+          tget (q_dep (a_store a')) (s_from s) = Some (u256 (cur + s_amount s))
+    end.
+  Proof.
+    cbv zeta. unfold deposit_qsr_receive.
+    destruct (deposit_qsr_validate s) as [u|c|].
+    - cbv zeta. eexists. split; [reflexivity|]. split; [reflexivity|].
+      cbn [a_store with_store q_dep]. rewrite tget_tput, bytes_eqb_refl. reflexivity.
+    - split; [reflexivity|]. intros Hc q g amt sv. unfold DepositQsr_receive. cbv zeta.
+      assert ((c =? 0) = false) as -> by lia. reflexivity.
+    - reflexivity.
+  Qed.
+End QsrSource.
